@@ -280,6 +280,22 @@ def check(run, prog, tier):
                        f.file, n.get("l"), f.name, what="%s takes notification records out of the pipe that it cannot deliver: the completion is accepted (post returned 0) and never reaches the backend" % f.name)
         run.need(nread >= 1, "read() from the notification pipe (found %d)" % nread)
 
+    # posting never blocks: the threads that post (timer, workers) are joined by the thread that reads the pipe, so a poster
+    # asleep in write() on a full pipe and a reader waiting in join() for it would wait for each other
+    if not creates:
+        nb = False
+        how = "the pipe is created without O_NONBLOCK and its write end is not switched to it afterwards"
+        for f, n in pipes:
+            if n.get("fn") == "pipe2" and len(n.get("args", [])) > 1 and facts.any_in_macro(n["args"][1], "O_NONBLOCK"):
+                nb, how = True, "pipe2(.., O_NONBLOCK ..): both ends non-blocking"
+        for f in efuncs_raw:
+            for b, i, n in f.calls("fcntl"):
+                a = n.get("args", [])
+                if len(a) >= 3 and chan in show(a[0]) and const_val(strip(a[0]).get("i") if strip(a[0]).get("k") == "Sub" else None) == 1 and any(facts.any_in_macro(x, "O_NONBLOCK") for x in a[2:]):
+                    nb, how = True, "fcntl(%s, F_SETFL, .. O_NONBLOCK)" % show(a[0])
+        run.ob("C19-c", "pipe-write-nonblocking", nb, how, pipes[0][0].file, pipes[0][1].get("l"), pipes[0][0].name,
+               what="a post into a full notification pipe blocks the posting thread; stopping the timer or a worker (which joins that thread from the only reader of the pipe) then never returns")
+
     # a completion that was accepted has been written: async_runtime_post_completion() answers 0 only behind a whole-record write
     if not creates:
         byn = {f.name: f for f in efuncs_raw}
